@@ -189,7 +189,10 @@ func Run(t *core.T) {
 	qt.PointHook = func() { k.Yield(-1) }
 	qt.FilterHook = func() { k.Yield(-2) }
 	verifrt.YieldHook = k.Yield
-	defer func() { qt.PointHook, qt.FilterHook, verifrt.YieldHook = nil, nil, nil }()
+	// whether a sync.Pool hands back a pooled object is a choice of the run, not of the Go runtime
+	verifrt.ResetPools()
+	verifrt.PoolHook = func(n int) bool { return !t.Src.Chance(1, 4, "pool-fresh") }
+	defer func() { qt.PointHook, qt.FilterHook, verifrt.YieldHook, verifrt.PoolHook = nil, nil, nil, nil }()
 
 	k.OnStep = func(cur *kernel.Task, site int) {
 		if cur.OpSteps > opBudget {
@@ -230,7 +233,7 @@ func Run(t *core.T) {
 		})
 	}
 	k.Run()
-	qt.PointHook, qt.FilterHook, verifrt.YieldHook = nil, nil, nil
+	qt.PointHook, qt.FilterHook, verifrt.YieldHook, verifrt.PoolHook = nil, nil, nil, nil
 	if k.Stuck {
 		// a task blocked on a lock or channel the simulator does not own while another
 		// task was parked inside the critical section: this engine cannot schedule such
